@@ -299,7 +299,9 @@ fn nested_pass_cases(l: &mut Local) {
                 let want_a: Vec<Float> = (0..3).map(|i| passes as Float * expect(av[i], bv[i], s[i]).0).collect();
                 let want_b: Vec<Float> = (0..3).map(|i| passes as Float * expect(av[i], bv[i], s[i]).1).collect();
                 match got {
-                    Err(m) => l.violation("nested-pass", case(), format!("panicked: {}", m)),
+                    // an implementation may refuse to start a pass inside a pass (the statement promises
+                    // nothing about re-entrancy); what it must not do is finish with wrong gradients
+                    Err(_) => l.count("nested_pass_refused"),
                     Ok((ga, gb)) => {
                         l.outcome(digest_str(&format!("{:?}{:?}", ga, gb)));
                         if ga.as_deref() != Some(&want_a[..]) {
